@@ -355,7 +355,19 @@ def r3(rep, prog):
         MDI + "garbage_collect": "the garbage collector (files_to_delete only)",
         MD + "delete": "delegation to the wrapped directory",
         "<tantivy::directory::directory::DirectoryLockGuard as core::ops::drop::Drop>::drop": "releases the lock file",
+        I + "index_writer::advance_deletes": "removes a leftover of the very delete file it is about to create (added by the F36 repair; the path is checked below)",
     })
+    # advance_deletes may only delete the path of the delete file of the meta it is creating
+    ab = prog.body(I + "index_writer::advance_deletes")
+    if ab is not None:
+        for bi, t in ab.calls():
+            f = t.get("res") or t.get("f") or ""
+            if f.endswith("Directory>::delete") or f.endswith("Directory::delete"):
+                l = op_local(t["args"][1]) if len(t["args"]) > 1 else None
+                lv = provenance(ab, l) if l is not None else set()
+                okp = any(x[0] == "call" and x[1].endswith("segment::Segment::relative_path") for x in lv)
+                rep.check(okp, R, "advance_deletes deletes only the delete file it is about to write", "path <- Segment::relative_path(..)",
+                          "advance_deletes calls Directory::delete on a path that is not the relative_path of the segment component it is about to create", site=site(ab, bi))
     rule_who_may_call(rep, prog, R, {MDI + "garbage_collect"}, "ManagedDirectory::garbage_collect", {
         SU + "garbage_collect_files": "the updater's GC",
         I + "single_segment_index_writer::SingleSegmentIndexWriter::<D>::finalize_inner": "single-segment writer, after its only commit",
